@@ -55,8 +55,9 @@ structure St where
   probes : Nat → PStat := fun _ => .idle
   fired : List (Nat × Bool) := []       -- fault events processed so far
   cancelled : List Nat := []            -- fault handles with `_cancelled` set
+  base : Nat := 0                       -- the configured capacity (what the model last asked for)
 
-def St.init (c : Case) : St := { avail := (c.cap * SC : Nat), cancelled := c.initCanc }
+def St.init (c : Case) : St := { avail := (c.cap * SC : Nat), cancelled := c.initCanc, base := c.cap }
 
 def St.setSt (s : St) (j : Nat) (st : Status) : St :=
   { s with procs := upd s.procs j { s.procs j with st := st } }
@@ -95,7 +96,7 @@ def exec (c : Case) (j now : Nat) : List Op → Nat → St → St × List Tok
     let r := exec c j now rest (k + 1) (s.resolve f)
     (r.1, .r k :: r.2)
   | .acq a :: rest, k, s =>
-    if s.ws.capOf c.cap < a * SC then
+    if s.ws.capOf s.base < a * SC then
       let r := exec c j now rest (k + 1) s
       (r.1, .x k :: r.2)
     else if (a * SC : Nat) ≤ s.avail then
@@ -160,13 +161,17 @@ def faultPop (c : Case) (s : St) (fid : Nat) (act : Bool) : St × List Tok :=
     else
       let w' := if act then s.ws.activate fid ft.kind else s.ws.deactivate fid ft.kind
       let s1 : St := { s with ws := w', fired := (fid, act) :: s.fired }
-      (s1.setCap (s.ws.capOf c.cap) (w'.capOf c.cap), [])
+      (s1.setCap (s.ws.capOf s.base) (w'.capOf s.base), [])
 
 /-- the event is handled (the gate is open) -/
 def stepOpen (c : Case) (s : St) : Pop → St × List Tok
   | .fault _ fid act => faultPop c s fid act
   | .cancel _ fid => ({ s with cancelled := fid :: s.cancelled }, [])
   | .healall _ k => ({ s with ws := s.ws.healAll k (c.partOn k) }, [])
+  | .setcap _ v =>
+    -- `Resource.set_capacity(v)` by the model: `v` is the new configured capacity; the factors of the
+    -- open `ReduceCapacity` windows keep applying to it
+    ({ s with base := v }.setCap (s.ws.capOf s.base) (s.ws.capOf v), [])
   | .job t j false =>
     if (s.procs j).st = .idle then
       let r := exec c j t (c.job j).ops 0 s
